@@ -40,6 +40,36 @@ def _targets(rng, spaces, nmax, spin=False):
     return out
 
 
+def _ring_term(rng):
+    """Identical tensors repeated in a cycle: several contracted indices of one space share
+    their position fingerprint although they are not interchangeable (which of them sit on
+    a common tensor matters), so the search over candidate renamings must branch."""
+    from adcgen.indices import get_symbols
+    from adcgen.sympy_objects import NonSymmetricTensor, AntiSymmetricTensor, Amplitude
+    which = rng.choice(["cycle", "cycle", "yyww", "two"])
+    if which == "cycle":
+        n = rng.randint(3, 5)
+        sp = rng.choice(["ijklm", "abcde"])
+        idx = get_symbols(sp[:n])
+        order = list(range(n))
+        rng.shuffle(order)
+        t = S.One
+        for q in range(n):
+            t *= NonSymmetricTensor("c", (idx[order[q]], idx[order[(q + 1) % n]]))
+        return rng.choice([1, 2, -1]) * t
+    if which == "two":
+        i, j, k = get_symbols("ijk")
+        a, b, c = get_symbols("abc")
+        return (NonSymmetricTensor("c", (i, j)) * NonSymmetricTensor("c", (j, k)) * NonSymmetricTensor("c", (k, i))
+                * AntiSymmetricTensor("f", (a,), (b,)) * AntiSymmetricTensor("f", (b,), (c,))
+                * AntiSymmetricTensor("f", (c,), (a,)))
+    i, j, k, l = get_symbols("ijkl")
+    a, b, c, d = get_symbols("abcd")
+    bks = rng.choice([0, 1])
+    return (Amplitude("Y", (a, b), (i, j)) * Amplitude("Y", (c, d), (k, l))
+            * AntiSymmetricTensor("d", (i, k), (a, c), bks) * AntiSymmetricTensor("d", (j, l), (b, d), bks))
+
+
 def build_case(item):
     """Deterministically builds (expr kwargs, list of sympy terms, meta)."""
     kind, sd = item
@@ -60,8 +90,13 @@ def build_case(item):
     meta = {"kind": kind, "seed": sd, "pairs": []}
     n_seed = rng.randint(1, 3)
     from adcgen import Expr
+    if kind == "ring":
+        T, explicit = [], False
     for _ in range(n_seed):
-        t0 = g.term_with_target(T, repeat_target=0.3 if kind == "repeat" else 0.0)
+        if kind == "ring":
+            t0 = _ring_term(rng)
+        else:
+            t0 = g.term_with_target(T, repeat_target=0.3 if kind == "repeat" else 0.0)
         terms.append(t0)
         tobj = Expr(t0, target_idx=T if explicit else None).terms[0]
         contracted = [s for s in tobj.contracted]
@@ -70,7 +105,7 @@ def build_case(item):
             explicit = True
             contracted = [s for s in Expr(t0, target_idx=T).terms[0].contracted]
         r = rng.random()
-        if contracted and r < 0.75:
+        if contracted and (r < 0.75 or kind == "ring"):
             t1, _ = rename_contracted(t0, contracted, rng, POOL, keep=T)
             coef = rng.choice([1, -1, 2, Rational(1, 2), Rational(-3, 4)])
             terms.append(coef * t1)
@@ -170,7 +205,7 @@ def main():
     run = Run("C07", a.tier, "translation_validation")
     n = 640 if a.tier == "quick" else 6000
     TIMEOUT = 20000 if a.tier == "quick" else 120000
-    kinds = ["plain", "delta", "general", "expo", "repeat", "spin", "denom", "plain"]
+    kinds = ["plain", "delta", "general", "expo", "repeat", "spin", "denom", "plain", "ring"]
     base = seed() * 1000003
     items = [(kinds[k % len(kinds)], base + k) for k in range(n)]
     results = pmap(run_case, items, limit=120 if a.tier == "quick" else 600)
